@@ -16,7 +16,8 @@ fn bad_inputs() -> Vec<Vec<u8>> {
 }
 fn good_texts() -> Vec<&'static str> {
     vec!["\u{3bb}", "\u{3bb}x \u{e9}\u{e9}", "(\u{3bb} . \u{1f600})", "\"\u{3bb}\\x3bb;\u{1f600}\\n\"", "#\\\u{3bb} #\\x1f600", "a\u{3bb}b", "-\u{3bb}", "#:\u{3bb}k", ":\u{e9}", "\u{e9}:", "\"a\u{e9}\\\\\u{3bb}\\\"\u{1f600}\"",
-         "(.\u{3bb} +\u{e9})", "\u{3bb};c\u{e9}\n\u{e9}", "\"\u{7ff}\u{800}\u{ffff}\u{10000}\u{10ffff}\"", "\u{80}\u{7ff}", "#%\u{3bb}"]
+         "(.\u{3bb} +\u{e9})", "\u{3bb};c\u{e9}\n\u{e9}", "\"\u{7ff}\u{800}\u{ffff}\u{10000}\u{10ffff}\"", "\u{80}\u{7ff}", "#%\u{3bb}",
+         "\"\\x80;\"", "\"\\xe9;\\xff;\"", "\"a\\xa1;\u{3bb}\\x7f;\\x100;\"", "\"\\xe9\"", "\"\\u00e9\\u00ff\"", "\"\\351\"", "#\\xe9 #\\xff", "?\\xe9", "?\u{e9}", "(\"\\xc3;\\xa9;\")", "\"\\N{U+e9}\"", "\"\\U000000e9\""]
 }
 fn values() -> Vec<Value> {
     vec![Value::symbol("\u{3bb}"), Value::from("\u{3bb}\u{1f600}\"\\\n"), Value::keyword("\u{e9}k"), Value::from('\u{3bb}'), Value::from('\u{1f600}'), Value::from('\u{80}'),
@@ -28,6 +29,7 @@ fn cases(_ob: &str) -> Vec<String> {
     for i in 0..bad_inputs().len() { out.push(format!("bad:{}", i)); }
     for i in 0..good_texts().len() { out.push(format!("good:{}", i)); }
     for i in 0..values().len() { out.push(format!("print:{}", i)); }
+    for i in 0..6 { out.push(format!("sweep:{}", i)); }
     out
 }
 fn strs_ok(v: &Value) -> bool {
@@ -77,6 +79,29 @@ fn check(case: &str) -> Option<String> {
                 let (bytes, s) = match &o { None => (lexpr::to_vec(&v).ok()?, lexpr::to_string(&v).ok()?), Some(o) => (lexpr::to_vec_custom(&v, *o).ok()?, lexpr::to_string_custom(&v, *o).ok()?) };
                 if std::str::from_utf8(&bytes).is_err() { return Some(format!("printing {:?} writes bytes that are not UTF-8", v)); }
                 if s.as_bytes() != &bytes[..] { return Some(format!("to_string and to_vec disagree on {:?}", v)); }
+            }
+            None
+        }
+        "sweep" => {
+            // every scalar below U+0300 (and a few above): as a hex escape in a string read from &str, and as a printed character / one-character string
+            let mut ns: Vec<u32> = (i as u32 * 0x80..(i as u32 + 1) * 0x80).collect();
+            ns.extend([0x7ffu32 + i as u32, 0xd7ff - i as u32, 0xe000 + i as u32, 0xffff - i as u32, 0x10000 + i as u32, 0x10ffff - i as u32]);
+            for n in ns {
+                let c = match char::from_u32(n) { Some(c) => c, None => continue };
+                for (o, texts) in [(Options::default(), vec![format!("\"\\x{:x};\"", n), format!("(a \"\u{3bb}\\x{:X};b\")", n)]), (Options::elisp(), vec![format!("\"\\x{:x}\"", n), format!("\"\\u{:04x}\"", n & 0xffff), format!("\"\\U{:08x}\"", n)])] {
+                    for t in texts {
+                        let mut ps = lexpr::Parser::from_str_custom(&t, o.clone());
+                        for _ in 0..3 { match ps.next_value() { Ok(Some(v)) => { if !strs_ok(&v) { return Some(format!("{:?} read from a &str: a value with ill-formed UTF-8 in a str was returned", t)); } } _ => break } }
+                    }
+                }
+                for v in [Value::from(c), Value::from(c.to_string()), Value::symbol(c.to_string()), Value::list(vec![Value::from(c), Value::from(format!("a{}b", c))])] {
+                    for o in [lexpr::print::Options::default(), lexpr::print::Options::elisp()] {
+                        let bytes = match lexpr::to_vec_custom(&v, o) { Ok(b) => b, Err(_) => continue };
+                        let s = match lexpr::to_string_custom(&v, o) { Ok(s) => s, Err(_) => continue };
+                        if std::str::from_utf8(&bytes).is_err() || std::str::from_utf8(s.as_bytes()).is_err() { return Some(format!("printing {:?} (U+{:04X}) writes bytes that are not UTF-8", v, n)); }
+                        if s.as_bytes() != &bytes[..] { return Some(format!("to_string and to_vec disagree on {:?}", v)); }
+                    }
+                }
             }
             None
         }
